@@ -891,3 +891,14 @@ Proof.
     now rewrite !nob_app, (C _ H1), (C _ H2), H3.
   - now apply trim_pad.
 Qed.
+
+(* ------------------------------------------------------------------------------------------------ *)
+(* 9. the canonical Content-Length spelling satisfies wf_body                                        *)
+(* ------------------------------------------------------------------------------------------------ *)
+Lemma wf_body_canonical g b :
+  g_body g = Some b -> N.of_nat (length b) <= usize_max ->
+  hget (HKnown H_ContentLength) (denote_headers (g_headers g)) = Some (dec_render (N.of_nat (length b))) ->
+  wf_body g = true.
+Proof.
+  intros Hb Hl Hg. unfold wf_body. rewrite Hg, Hb, parse_usize_dec_render by assumption. apply N.eqb_refl.
+Qed.
